@@ -61,6 +61,13 @@ func Attribute(m Mismatch, running string) string {
 				return "C01" // a parent counted twice creates value
 			}
 			return "C02"
+		case has("!zeroval"):
+			// a contract of no value formed by a transaction without inputs can be mined twice under one id
+			switch running {
+			case "C02", "C07":
+				return running // (no double resolution; every contract resolved at most once)
+			}
+			return "C02"
 		case has("!badsig", "!nosig", "!wrongkey", "!newkeys", "!devother"):
 			return "C03"
 		case has("!plus1", "!minus1", "!fee1", "!tax", "!zero", "block!payout", "!sfwrap", "!scwrap"):
